@@ -87,17 +87,31 @@ def rule_lfs(ctx, rep):
             # result `stack was non-empty` = (the head value the successful cmpxchg replaced != NULL): it is computed from the
             # expected-value variable (or the cmpxchg result, equal to it on the success edge), not from anything remembered
             # from earlier, failed attempts
+            from .. import dtable
             for r in f.rets():
                 if not r.args:
                     continue
                 e = ir.expr(f, r.args[0], 6)
-                neg = False
-                if e[0] == "bin" and e[1] == "xor" and e[3] == ("c", -1):
-                    e, neg = e[2], True
-                okr = False
-                if e[0] == "icmp" and e[3] == ("c", 0) and ((e[1] == "ne" and not neg) or (e[1] == "eq" and neg)):
-                    v = e[2]
-                    okr = v == ("phi", exp[1]) or (v[0] in ("asm", "cmpxchg") and v[-1] == c.inst.id) or (v[0] == "cmpxchg" and v[2] == c.inst.id)
+                # evaluate the returned expression over the two classes of the replaced head value (the expected-value variable,
+                # equal to the cmpxchg result on the success edge): NULL -> 0, anything else -> non-zero
+                okr = True
+                for cls, want_zero in ((("c", 0), True), ((dtable.OTHER, 0), False)):
+                    env = {("phi", exp[1]): cls, c.inst.id: cls}
+                    if e[0] == "phi":
+                        # `if (head == NULL) return false; return true;`: constants selected by a branch on the head value
+                        ph = f.insts[e[1]]
+                        vals = set()
+                        for val, blk in ph.d["inc"]:
+                            atoms = ir.edge_atoms(f, blk, ph.blk.id) + pat.dom_leaf_atoms(f, f.blocks[blk].insts[-1])
+                            ts = [dtable.truth(a, env) for a in atoms]
+                            if None in ts:
+                                okr = False
+                            if all(t for t in ts):
+                                vals.add(ir.const_of(f, val))
+                        okr = okr and len(vals) == 1 and None not in vals and ((next(iter(vals)) == 0) == want_zero)
+                    else:
+                        v = dtable.ev(e, env)
+                        okr = okr and v is not None and v[0] == "c" and ((v[1] == 0) == want_zero)
                 rep.check(okr, "C11.lfs", tag + ".ret=replaced-head!=NULL", "push returns whether the head it replaced was non-NULL",
                           "push result is %s, not (replaced head != NULL): it can disagree with the order in which pushes and pops took effect" % ir.expr_str(ir.expr(f, r.args[0], 6)), [r.where()])
     for name in ("___cds_lfs_pop", "_cds_lfs_pop_rcu"):
